@@ -14,7 +14,12 @@ RULE = ("one case = one estimator fitted ONCE by the real code, then applied to 
         "instances, optionally with a duplicated instance) and to variants of it: 2 random "
         "permutations (row labels kept / reset), EVERY single row, a sub-selection with repeats, the "
         "batch with shuffled row labels, the batch as a 3-D array, one row as a (1,c,T) array, the "
-        "estimator re-fitted on the 3-D training array, and the batch again at the end. "
+        "estimator re-fitted on the 3-D training array, and the batch again at the end; cell kind x row "
+        "index: the batch as a nested frame with pd.Series cells under permuted-0..n-1 / string row "
+        "labels and with np.ndarray cells under default / permuted / arbitrary-integer / string labels, "
+        "its .iloc permutation, sub-selection and last single row with ndarray cells (labels kept), and "
+        "the estimator re-fitted on the training frame with ndarray or Series cells under permuted / "
+        "string labels (targets positional); each case runs a rotating half of the label kinds. "
         "kind=closed: the 11 closed-form transformers of C14 on small explicit panels (values small "
         "integers / quarters, unequal lengths where supported, fitted on the batch or on a separate "
         "panel, parameters at and around the acceptance boundary); kind=learned: every other "
@@ -60,9 +65,9 @@ MODELLED = [
     "the claim that the code is of that form is sampled by the correspondence run, not proved",
     "an estimator's dependence on row labels / column labels is modelled as absent (est_apply's f sees "
     "values only); the run varies row labels (kept, reset, shuffled) and column names (var_i, dim_i)",
-    "nested DataFrames with np.ndarray cells are not part of the claim (PaddingTransformer, "
-    "TruncationTransformer, TSInterpolator and MUSE call pandas methods on the cells); the two "
-    "container formats of the property are the nested DataFrame with pd.Series cells and the 3-D array",
+    "nested DataFrames are exercised with pd.Series cells AND with np.ndarray cells, under default, "
+    "permuted, arbitrary-integer and string row labels, at fit and at apply time; a refusal of ndarray "
+    "cells (MUSE, FittedParamExtractor: open findings) is a finding, a different VALUE is a violation",
     "the empty batch and instances without variables are outside the theorems' domain (check_X "
     "requires at least one instance and one column)",
     "ContractedShapeletTransform is wall-clock contracted: re-fitting is not reproducible, so "
@@ -486,15 +491,45 @@ def driver_init():
     _DOUBLES.update({"affine": Affine, "cumsum": Cumsum, "reverse": Reverse, "weighted": Weighted})
 
 
-def _nested(rows, colnames="var", index=None):
+def _nested(rows, colnames="var", index=None, cells="series"):
+    """nested DataFrame; cells: pd.Series ("series") or np.ndarray ("array") in every cell"""
+    import numpy as np
     import pandas as pd
     pre = "var_" if colnames == "var" else "dim_"
-    d = {"%s%d" % (pre, j): pd.Series([pd.Series(r[j], dtype=float) for r in rows], dtype=object)
-         for j in range(len(rows[0]))}
+
+    def cell(v):
+        return pd.Series(v, dtype=float) if cells == "series" else np.asarray(v, dtype=float)
+    d = {}
+    for j in range(len(rows[0])):
+        vals = np.empty(len(rows), dtype=object)      # keeps 1-point cells as arrays / Series
+        for i, r in enumerate(rows):
+            vals[i] = cell(r[j])
+        d["%s%d" % (pre, j)] = pd.Series(vals, dtype=object)
     df = pd.DataFrame(d)
+    for j, c in enumerate(df.columns):
+        for i in range(len(rows)):
+            assert len(df.iloc[i, j]) == len(rows[i][j])
     if index is not None:
         df.index = index
     return df
+
+
+def _row_labels(how, n, seed=0):
+    """row index of a frame: a permutation of 0..n-1, arbitrary integers, strings"""
+    import random as _r
+    r = _r.Random(1000 + seed + n)
+    if how == "perm":
+        p = list(range(n))
+        for _ in range(5):
+            r.shuffle(p)
+            if p != list(range(n)) or n < 2:
+                break
+        return p
+    if how == "int":
+        return r.sample(range(-20, 400), n)
+    if how == "str":
+        return ["s%d" % v for v in r.sample(range(100), n)]
+    return None
 
 
 def _equal_len(rows):
@@ -863,6 +898,25 @@ def run_impl(case):
     sub = case["sub"]
     run("sub", sub, lambda: _apply(est, role, Xte.iloc[sub].reset_index(drop=True), tab))
     run("relabel", ident, lambda: _apply(est, role, _nested(te, cn, index=list(range(50, 50 + n))), tab))
+    sd = case.get("seed", 0) if isinstance(case.get("seed", 0), int) else 0
+    # row index x cell kind: the result may depend on neither (rows are positional)
+    # (each case runs a rotating half of the label kinds, all cases together cover the grid)
+    rot = (sd + n + len(case["sub"])) % 4
+    kinds4 = ["default", "perm", "int", "str"]
+    run("relabel_" + ("perm", "str")[rot % 2], ident,
+        lambda: _apply(est, role, _nested(te, cn, index=_row_labels(("perm", "str")[rot % 2], n, sd)),
+                       tab))
+    for how in (kinds4[rot], kinds4[(rot + 1) % 4]):
+        run("arr_" + how, ident,
+            lambda: _apply(est, role, _nested(te, cn, index=_row_labels(how, n, sd),
+                                              cells="array"), tab))
+    Xarr = _nested(te, cn, index=_labels(case, n), cells="array")
+    if case["perms"]:
+        p0 = case["perms"][0]
+        run("arr_iloc_perm", p0, lambda: _apply(est, role, Xarr.iloc[p0], tab))
+    run("arr_iloc_sub", sub, lambda: _apply(est, role, Xarr.iloc[sub], tab))
+    j1 = n - 1
+    run("arr_iloc_single", [j1], lambda: _apply(est, role, Xarr.iloc[[j1]], tab))
     if _equal_len(te):
         run("3d_apply", ident, lambda: _apply(est, role, _to3d(te), tab))
         j = n // 2
@@ -881,6 +935,15 @@ def run_impl(case):
                 e2.fit(_nested(tr, cn), y)
                 return _apply(e2, role, Xte, tab)
             run("refit_control", ident, refit)
+    if case.get("est") != "cshapelet":
+        ntr = len(tr)
+        for tag, cells, how in ((("fit_arr_perm", "array", "perm"), ("fit_ser_str", "series", "str"),
+                                 ("fit_arr_str", "array", "str"), ("fit_ser_perm", "series", "perm"))[rot],):
+            def fitv():
+                e2 = mk()
+                e2.fit(_nested(tr, cn, index=_row_labels(how, ntr, sd), cells=cells), y)
+                return _apply(e2, role, Xte, tab)
+            run(tag, ident, fitv)
     run("again", ident, lambda: _apply(est, role, Xte, tab))
     out["table"] = tab.vals
     return out
@@ -939,11 +1002,13 @@ def _tied(tbl, row):
 CLAUSE = {"perm": "permutation-equivariance", "single": "single-instance-differs-from-batch-row",
           "sub": "sub-selection", "relabel": "row-order", "3d_apply": "container-dependence-at-apply",
           "single3d": "container-dependence-at-apply", "3d_fit": "container-dependence-at-fit",
-          "again": "apply-changes-fitted-state"}
+          "again": "apply-changes-fitted-state", "arr_": "container-dependence-at-apply",
+          "fit_": "container-dependence-at-fit"}
 
 
 def _clause(tag):
-    for k in ("single3d", "3d_apply", "3d_fit", "perm", "single", "sub", "relabel", "again"):
+    for k in ("single3d", "3d_apply", "3d_fit", "arr_", "fit_", "perm", "single", "sub", "relabel",
+              "again"):
         if tag.startswith(k):
             return CLAUSE[k]
     return None
@@ -974,8 +1039,14 @@ def oracle(case, out):
             continue
         rows = r.get("rows")
         if rows is None:
-            return "%s: %s run '%s' raised %s although the batch was accepted" % (
+            msg = "%s: %s run '%s' raised %s although the batch was accepted" % (
                 cl, who, r["tag"], r.get("err"))
+            if r["tag"].startswith("arr_") or r["tag"].startswith("fit_arr"):
+                # a frame with ndarray cells is refused: reported after every other comparison of
+                # the case (a wrong VALUE elsewhere must not hide behind a refusal)
+                late.append(msg)
+                continue
+            return msg
         idx = r["idx"]
         if len(rows) != len(idx):
             return "row-count: %s run '%s' returned %d rows for %d instances" % (
